@@ -170,7 +170,7 @@ class Request:
         """
         return self.parameter_storage_class(
             parse_qsl(
-                self.query_string.decode(),
+                self.query_string.decode(errors="replace"),
                 keep_blank_values=True,
                 errors="werkzeug.url_quote",
             )
@@ -192,7 +192,7 @@ class Request:
     @cached_property
     def full_path(self) -> str:
         """Requested path, including the query string."""
-        return f"{self.path}?{self.query_string.decode()}"
+        return f"{self.path}?{self.query_string.decode(errors='replace')}"
 
     @property
     def is_secure(self) -> bool:
